@@ -186,6 +186,46 @@ def check_scaled(case):
                              % (onp.linalg.norm((xs2 - xref) * sc), settings.tol / lb[0]), **data))
     if not (onp.array_equal(onp.asarray(so.p[0]), onp.asarray(p_new[0]))):
         fails.append(Failure('parameters', 'ScaledObjective does not carry the new parameters after the load step', **data))
+    # the warm-start predictor through the scaled objective, observed with the public solver_algorithm hook
+    xs1 = onp.asarray(xs1)
+    with capture_stdout():
+        so.p = p_old
+        recorder = lambda objective, xBar0, settings_, callback=None: (xBar0, True)
+        xw, _ = ES.nonlinear_equation_solve(so, np.array(xs1), p_new, settings, solver_algorithm=recorder, useWarmStart=True)
+    dx = onp.asarray(xw) - xs1
+    H1 = onp.asarray(hess(np.array(xs1), p_old))
+    Jb = onp.asarray(jax.jacfwd(lambda b_: grad(np.array(xs1), (b_, None, p_old[2])))(p_old[0]))
+    rhs = Jb @ (onp.asarray(p_old[0]) - onp.asarray(p_new[0]))
+    ref = onp.linalg.solve(H1, rhs)
+    # compare in the scaled variables, where the linear solve is carried out to a relative residual of 1e-5
+    e = onp.linalg.norm((dx - ref) * sc)
+    cnd = onp.linalg.cond(H1 / onp.outer(sc, sc))
+    if onp.linalg.norm(ref * sc) > 0 and e > 2e-5 * cnd * onp.linalg.norm(ref * sc) + 16 * EPS * onp.linalg.norm(xs1 * sc):
+        fails.append(Failure('scaled-warm-start', 'warm start through ScaledObjective differs from the linear predictor by %.3e relative (scaled variables, condition %.1e)'
+                             % (e / onp.linalg.norm(ref * sc), cnd), **data))
+    # bound-constrained solve through the scaled objective: physical bounds, some of them active and non-zero
+    from optimism import TrustRegionSPG as SPG
+    from checks import c05_spg
+    xun = xref                                          # unconstrained minimiser (physical, badly scaled variables)
+    span = onp.abs(xun) + 1.0 / onp.array(case['dscale'])
+    lbp = xun + 0.3 * span * onp.array([1.0 if i % 2 == 0 else -3.0 for i in range(n)])     # even coordinates: active lower bound
+    ubp = lbp + 2.0 * span
+    sps = SPG.get_settings(tol=settings.tol, max_trust_iters=60)
+    try:
+        with capture_stdout():
+            xb, okb = SPG.solve(so, np.array(onp.minimum(onp.maximum(xs2, lbp), ubp)), p_new, np.array(lbp), np.array(ubp), sps, useWarmStart=False)
+    except RuntimeError:
+        okb = False
+    if okb:
+        xb = onp.asarray(xb)
+        g = onp.asarray(grad(np.array(xb), p_new))
+        # physical KKT: projected gradient in the scaled metric must vanish to the tolerance
+        r = (onp.minimum(onp.maximum(xb * sc - g / sc, lbp * sc), ubp * sc) - xb * sc)
+        if onp.linalg.norm(r) > settings.tol * (1 + 1e-6):
+            fails.append(Failure('scaled-bounds', 'SPG.solve through ScaledObjective reported success but the projected-gradient measure for the physical bounds is %.3e (tol %.1e)'
+                                 % (onp.linalg.norm(r), settings.tol), **data))
+        if (xb < lbp - 1e-12 * (1 + onp.abs(lbp))).any() or (xb > ubp + 1e-12 * (1 + onp.abs(ubp))).any():
+            fails.append(Failure('scaled-bounds', 'SPG.solve through ScaledObjective returned a point outside the physical bounds', **data))
     return Result(fails, classes=[coef['family'], 'warm' if case['warm'] else 'cold'], nontrivial=True)
 
 
